@@ -90,7 +90,7 @@ PROPS = {
                        "into the new one unless a key is redefined in place (indexes_and_keys_from_scripts); with dropped columns the index statements printed with "
                        "the dropped-column list turn what the DROP COLUMNs leave of the old index list into the new one, unless an index is redefined while all its "
                        "old columns are dropped = the recorded finding (indexes_with_dropped_columns); a column with the same type and options (up to order) on both "
-                       "sides gets no column statement in either direction (equal_column_untouched, schemas without PRIMARY KEY). Not proved: a MODIFY for exactly the changed columns, the primary "
+                       "sides gets no column statement in either direction (equal_column_untouched, no inline PRIMARY KEY option). Not proved: a MODIFY for exactly the changed columns, the primary "
                        "key, other dialects; the full statement Sqlize.C01.Statement(_partial) is decided on "
                        "every run by correspondence (model = code on state and text) plus the "
                        "executable predicate Spec.c01 (reference DDL engine) on the migration text the Go code printed.",
@@ -129,9 +129,10 @@ PROPS = {
                        "dialect/case/field-order setting, and stay quiet (Sqlize.C03.unchanged_prints_nothing); Diff of two consistent, freshly loaded "
                        "models with equal live content (Table.Same: namesake columns/indexes compare equal, same fk names; order and index-type "
                        "spelling free) returns and leaves nothing to print in either direction (Sqlize.C03.equal_content_empty, self_diff_empty). "
-                       "Two different scripts with equivalent reference schemas (no PRIMARY KEY declarations; column / statement / option order, ALTER histories and "
-                       "index-type spelling free) load into such models: empty migration in both directions (Sqlize.C03.equal_schemas_from_scripts). With "
-                       "PRIMARY KEY declarations (two representations: recorded finding) that is decided by correspondence + Spec.c03 on the Go output.",
+                       "Two different scripts with equivalent reference schemas (no inline PRIMARY KEY option, table-level keys covered; column / statement / option order, "
+                       "ALTER histories and index-type spelling free) load into such models: empty migration in both directions "
+                       "(Sqlize.C03.equal_schemas_from_scripts). With an inline PRIMARY KEY (two representations of a key: recorded finding) that is decided "
+                       "by correspondence + Spec.c03 on the Go output.",
     },
     "C13": {
         "level": "proof",
